@@ -14,22 +14,52 @@ contract("selectors:IndexSelector._normalized_index",
     raises=[], props=["C07", "C08"])
 
 contract("selectors:JSONPathSelector.resolve",
-    requires=["isinstance(self, JSONPathSelector)", "wf_selector(self)"] + WF_NODE,
-    yields=["out == select(self, node)"],
-    raises=["JSONPathTypeError", "JSONPathRecursionError"], props=["C01", "C02"])
+    requires=["isinstance(self, JSONPathSelector)", "wf_env(self.env)", "wf_selector(self, self.env)"] + WF_NODE,
+    yields=["implies(not truthy(self.env.nondeterministic), out == select(self, node))", "all(wf_node(n) for n in out)"],
+    raises=["JSONPathTypeError", "JSONPathRecursionError"], props=["C01", "C02"], abstract=True)
 
 contract("selectors:IndexSelector.resolve",
-    requires=["isinstance(self, IndexSelector)", "is_int(self.index)"] + WF_NODE,
-    yields=["out == sel_index(node, self.index)"],
+    requires=["isinstance(self, IndexSelector)", "is_int(self.index)"] + WF_NODE, unfold=["is_json"],
+    yields=["out == sel_index(node, self.index)", "all(wf_node(n) for n in out)"],
     raises=[], props=["C07", "C08", "C01"])
 
 contract("selectors:SliceSelector.resolve",
-    requires=["isinstance(self, SliceSelector)", "wf_slice(self.slice)"] + WF_NODE,
-    yields=["out == sel_slice(node, self.slice.start, self.slice.stop, self.slice.step)"],
-    loops={1: ["out == slice_prefix(node, self.slice.start, self.slice.stop, slice_step(self.slice.step), i1)"]},
+    requires=["isinstance(self, SliceSelector)", "wf_slice(self.slice)"] + WF_NODE, unfold=["is_json"],
+    yields=["out == sel_slice(node, self.slice.start, self.slice.stop, self.slice.step)", "all(wf_node(n) for n in out)"],
+    loops={1: ["out == slice_prefix(node, self.slice.start, self.slice.stop, slice_step(self.slice.step), i1)", "all(wf_node(n) for n in out)"]},
     raises=[], props=["C07", "C08", "C01"])
 
 contract("selectors:NameSelector.resolve",
-    requires=["isinstance(self, NameSelector)", "is_str(self.name)"] + WF_NODE,
-    yields=["out == sel_name(node, str_of(self.name))"],
+    requires=["isinstance(self, NameSelector)", "is_str(self.name)"] + WF_NODE, unfold=["is_json"],
+    yields=["out == sel_name(node, str_of(self.name))", "all(wf_node(n) for n in out)"],
     raises=[], props=["C01", "C08"])
+
+DET = "not truthy(self.env.nondeterministic)"
+
+contract("selectors:WildcardSelector.resolve",
+    requires=["isinstance(self, WildcardSelector)", "wf_env(self.env)"] + WF_NODE, unfold=["is_json", "wf_env"],
+    yields=["implies(not truthy(self.env.nondeterministic), out == sel_wild(node))",
+            "all(wf_node(n) for n in out)"],
+    loops={1: ["implies(not truthy(self.env.nondeterministic), out == wild_prefix(node, i1))", "all(wf_node(n) for n in out)"],
+           2: ["out == wild_prefix(node, i2)", "all(wf_node(n) for n in out)"]},
+    raises=[], props=["C01", "C08", "C17"])
+
+contract("selectors:FilterSelector.resolve",
+    requires=["isinstance(self, FilterSelector)", "wf_env(self.env)", "wf_selector(self, self.env)"] + WF_NODE,
+    unfold=["wf_selector", "is_json"],
+    yields=["implies(not truthy(self.env.nondeterministic), out == sel_filter(self.expression, self.env, node))",
+            "all(wf_node(n) for n in out)"],
+    loops={1: ["implies(not truthy(self.env.nondeterministic), out == filter_prefix(self.expression, self.env, node, i1))", "all(wf_node(n) for n in out)"],
+           2: ["out == filter_prefix(self.expression, self.env, node, i2)", "all(wf_node(n) for n in out)"]},
+    raises=["JSONPathTypeError", "JSONPathRecursionError"], props=["C02", "C13", "C17"])
+
+contract("selectors:IndexSelector.__init__",
+    requires=["wf_env(env)", "is_int(index)"], unfold=["wf_env"],
+    raises_iff=[("JSONPathIndexError", "index < env.min_int_index or index > env.max_int_index")],
+    props=["C05"])
+
+contract("selectors:SliceSelector._check_range",
+    requires=["isinstance(self, SliceSelector)", "wf_env(self.env)", "all(is_none(x) or is_int(x) for x in indices)"], unfold=["wf_env"],
+    raises_iff=[("JSONPathIndexError", "any(not is_none(x) and (int_of(x) < self.env.min_int_index or int_of(x) > self.env.max_int_index) for x in indices)")],
+    loops={1: ["all(is_none(indices[j]) or not (int_of(indices[j]) < self.env.min_int_index or int_of(indices[j]) > self.env.max_int_index) for j in range(i1))"]},
+    props=["C05", "C07"])
